@@ -90,6 +90,12 @@ def handle_outcome(jr, R, o, relation, path, replay_fn, signature):
     if o.status == "sat" and o.expect == "unsat":
         leaves = C.leaf_values(R, o.model)
         rep = replay_fn(relation, leaves)
+        if not rep.get("reproduced"):
+            for cand in C.alternative_leaves(R, path, leaves):
+                rep2 = replay_fn(relation, cand)
+                if rep2.get("reproduced"):
+                    leaves, rep = cand, dict(rep2, leaves_from="perturbed solver model (same path)")
+                    break
         if rep.get("reproduced"):
             payload = {"property": PROP, "kernel": jr["kernel"], "relation": relation, "signature": signature, "leaves": leaves, "path": path.describe() if path else None, "replay_result": rep, "replay_case": jr.get("replay_case"),
                        "replay_call": {"fn": "harness.C01:replay_entry", "args": {"kernel": jr["kernel"], "signature": signature, "relation": relation, "leaves": leaves}}}
@@ -448,7 +454,7 @@ def configs(tier):
                 cfgs.append({"type": "spline", "kind": kind, "K": K, "mode": mode, "box": box, "timeout": t})
     for kind in ("rq", "quadratic", "cubic"):
         cfgs.append({"type": "spline", "kind": kind, "K": 2, "mode": "box", "box": "sym", "floors": True, "timeout": t})
-    for c in CS.cases_for(tier):
+    for c in CS.cases_for(tier, with_history=True):
         cfgs.append({"type": "module", "case": c.name, "timeout": t, "nval": 4})
     return cfgs
 
